@@ -10,3 +10,264 @@ Example c10_asfound_refuted :
   o_end (serve asfound (s "D") [] (mkA [] (FRespond 200 (s "ok") true))
                (s "GET /a HTTP/2.0" ++ CRLF ++ CRLF) true) = CHang.
 Proof. vm_compute. reflexivity. Qed.
+
+(* ======================================================================================== *)
+From TH Require Import Http.LineFacts Http.HeadFacts Http.FramingFacts Http.ServeRefuseFacts.
+Open Scope char_scope.
+
+(* ---- classification by the head parser (any configuration c) ---- *)
+(* the request line is the first line the reader delimits: read_line x = Some (l, rest) *)
+Theorem c10_few_fields : forall c x l rest,
+  read_line x = Some (l, rest) -> all_ascii l = true ->
+  (List.length (split_on SP (trim l)) < 3)%nat -> read_head c x = HeadBadLine.
+Proof. intros c x l rest R A F. apply (read_head_bad_line c x l rest R A). now apply parse_request_line_few. Qed.
+Print Assumptions c10_few_fields.
+
+Theorem c10_version_tokens : forall v : bytes,
+  parse_version v = None <->
+  ~ In v [s "HTTP/0.9"; s "HTTP/1.0"; s "HTTP/1.1"; s "HTTP/2.0"; s "HTTP/3.0"].
+Proof. exact parse_version_none. Qed.
+Print Assumptions c10_version_tokens.
+
+Theorem c10_unknown_version : forall c x l rest m p v more,
+  read_line x = Some (l, rest) -> all_ascii l = true ->
+  split_on SP (trim l) = m :: p :: v :: more ->
+  ~ In v [s "HTTP/0.9"; s "HTTP/1.0"; s "HTTP/1.1"; s "HTTP/2.0"; s "HTTP/3.0"] ->
+  read_head c x = HeadBadLine.
+Proof.
+  intros c x l rest m p v more R A E V. apply (read_head_bad_line c x l rest R A).
+  now apply (parse_request_line_bad_version _ m p v more).
+Qed.
+Print Assumptions c10_unknown_version.
+
+Theorem c10_non_ascii_request_line : forall c x l rest,
+  read_line x = Some (l, rest) -> all_ascii l = false -> read_head c x = HeadNonAscii.
+Proof. exact read_head_nonascii_line. Qed.
+Print Assumptions c10_non_ascii_request_line.
+
+(* the same three for a request line given explicitly, followed by ANY bytes *)
+Theorem c10_request_line_rendered : forall c l tail, no_crlf l = true ->
+  (all_ascii l = false -> read_head c (l ++ CRLF ++ tail) = HeadNonAscii) /\
+  (all_ascii l = true -> (List.length (split_on SP (trim l)) < 3)%nat ->
+     read_head c (l ++ CRLF ++ tail) = HeadBadLine) /\
+  (all_ascii l = true -> forall m p v more, split_on SP (trim l) = m :: p :: v :: more ->
+     parse_version v = None -> read_head c (l ++ CRLF ++ tail) = HeadBadLine).
+Proof.
+  intros c l tail C. pose proof (read_line_app l tail C) as R. split; [|split].
+  - intros A. now apply (read_head_nonascii_line c _ l tail).
+  - intros A F. apply (read_head_bad_line c _ l tail R A). now apply parse_request_line_few.
+  - intros A m p v more E V. apply (read_head_bad_line c _ l tail R A).
+    apply (parse_request_line_bad_version _ m p v more E). now apply parse_version_none.
+Qed.
+Print Assumptions c10_request_line_rendered.
+
+(* a header line that is reached: non-ASCII, or without a colon *)
+Theorem c10_non_ascii_header_line : forall rl m u ver goods bad tail,
+  all_ascii rl = true -> no_crlf rl = true -> parse_request_line (trim rl) = Some (m, u, ver) ->
+  forallb good_line goods = true ->
+  all_ascii bad = false -> no_crlf bad = true ->
+  read_head fixed (rl ++ CRLF ++ lines goods ++ bad ++ CRLF ++ tail) = HeadNonAscii.
+Proof. exact read_head_nonascii_header. Qed.
+Print Assumptions c10_non_ascii_header_line.
+
+Theorem c10_header_without_colon : forall rl m u ver goods bad tail,
+  all_ascii rl = true -> no_crlf rl = true -> parse_request_line (trim rl) = Some (m, u, ver) ->
+  forallb good_line goods = true ->
+  all_ascii bad = true -> no_crlf bad = true -> bad <> [] -> nosep ":" bad = true ->
+  read_head fixed (rl ++ CRLF ++ lines goods ++ bad ++ CRLF ++ tail) = HeadBadHeader ver.
+Proof. intros. apply (read_head_bad_header rl m u); auto. now apply bad_no_colon. Qed.
+Print Assumptions c10_header_without_colon.
+
+(* ---- Expect ---- *)
+Theorem c10_unsupported_expect : forall (hs : list header) (v : bytes),
+  header_value "Expect" hs = Some v -> eq_ci v (s "100-continue") = false ->
+  (framing fixed hs = FrExpectationFailed \/ framing fixed hs = FrBadContentLength) /\
+  ((forall w, header_value "Content-Length" hs = Some w -> cl_ok w = true) ->
+   framing fixed hs = FrExpectationFailed).
+Proof.
+  intros hs v H E. split; [now apply (unsupported_expectation hs v)|now apply (unsupported_expectation_417 hs v)].
+Qed.
+Print Assumptions c10_unsupported_expect.
+
+Theorem c10_expectation_failed_only : forall hs : list header,
+  framing fixed hs = FrExpectationFailed ->
+  exists v, header_value "Expect" hs = Some v /\ eq_ci v (s "100-continue") = false.
+Proof. exact expectation_failed_only. Qed.
+Print Assumptions c10_expectation_failed_only.
+
+(* ---- one iteration of the connection loop, in any state ---- *)
+Theorem c10_step_malformed : forall c date f script dflt st wire reqs al ok,
+  (read_head c (sbytes st) = HeadBadLine ->
+     serve_loop c date (S f) script dflt st wire reqs al ok
+     = mkO (frev reqs) (wire ++ error_bytes date 400 (1, 1)%N false) CClosed al ok) /\
+  (forall ver, read_head c (sbytes st) = HeadBadHeader ver ->
+     serve_loop c date (S f) script dflt st wire reqs al ok
+     = mkO (frev reqs) (wire ++ error_bytes date 400 ver false) CClosed al ok) /\
+  (read_head c (sbytes st) = HeadNonAscii ->
+     serve_loop c date (S f) script dflt st wire reqs al ok = mkO (frev reqs) wire CClosed al ok).
+Proof. intros. split; [apply step_bad_line|split; [apply step_bad_header|apply step_non_ascii]]. Qed.
+Print Assumptions c10_step_malformed.
+
+Theorem c10_step_expectation : forall c date f script dflt st wire reqs al ok m url ver hs rest,
+  read_head c (sbytes st) = HeadOk m url ver hs rest -> framing c hs = FrExpectationFailed ->
+  serve_loop c date (S f) script dflt st wire reqs al ok
+  = mkO (frev reqs) (wire ++ error_bytes date 417 ver true) CClosed al ok.
+Proof. intros. now apply (step_expectation_failed c date f script dflt st wire reqs al ok m url ver hs rest). Qed.
+Print Assumptions c10_step_expectation.
+
+(* a version above 1.1: not delivered (reqs unchanged), 505 on the wire, and the loop goes on with
+   what follows the refused request (its body, if any, is skipped by dropping its reader) *)
+Theorem c10_step_505 : forall date f script dflt st wire reqs al ok m url ver hs rest kind bl ex rd st1 al1,
+  read_head fixed (sbytes st) = HeadOk m url ver hs rest -> framing fixed hs = FrOk kind bl ex ->
+  ver = (2, 0)%N \/ ver = (3, 0)%N ->
+  build_reader kind rest (seof st) al = inl (Some (rd, st1, al1)) ->
+  serve_loop fixed date (S f) script dflt st wire reqs al ok
+  = serve_loop fixed date f script dflt (fst (body_drop fixed rd st1 al1)) (wire ++ bytes_505 date) reqs
+               (snd (body_drop fixed rd st1 al1)) ok.
+Proof.
+  intros date f script dflt st wire reqs al ok m url ver hs rest kind bl ex rd st1 al1 H F V B.
+  apply (step_505 date f script dflt st wire reqs al ok m url ver hs rest kind bl ex rd st1 al1 H F); [|exact B].
+  destruct V as [-> | ->]; reflexivity.
+Qed.
+Print Assumptions c10_step_505.
+
+Theorem c10_step_505_no_body : forall date f script dflt st wire reqs al ok m url ver hs rest bl ex,
+  read_head fixed (sbytes st) = HeadOk m url ver hs rest -> framing fixed hs = FrOk KEmpty bl ex ->
+  ver = (2, 0)%N \/ ver = (3, 0)%N ->
+  serve_loop fixed date (S f) script dflt st wire reqs al ok
+  = serve_loop fixed date f script dflt (mkS rest (seof st)) (wire ++ bytes_505 date) reqs al ok.
+Proof.
+  intros date f script dflt st wire reqs al ok m url ver hs rest bl ex H F V.
+  apply (step_505_no_body date f script dflt st wire reqs al ok m url ver hs rest bl ex H F).
+  destruct V as [-> | ->]; reflexivity.
+Qed.
+Print Assumptions c10_step_505_no_body.
+
+(* these are all the versions above 1.1 a parsed request line can carry *)
+Theorem c10_versions_above_11 : forall x m u ver, parse_request_line x = Some (m, u, ver) ->
+  ver_gt_11 ver = true <-> ver = (2, 0)%N \/ ver = (3, 0)%N.
+Proof. exact parsed_version_gt_11. Qed.
+Print Assumptions c10_versions_above_11.
+
+(* ---- the whole connection, the refused head first ---- *)
+Theorem c10_serve_first : forall date script dflt input eof,
+  (read_head fixed input = HeadBadLine ->
+     serve fixed date script dflt input eof = mkO [] (error_bytes date 400 (1, 1)%N false) CClosed [] true) /\
+  (forall ver, read_head fixed input = HeadBadHeader ver ->
+     serve fixed date script dflt input eof = mkO [] (error_bytes date 400 ver false) CClosed [] true) /\
+  (read_head fixed input = HeadNonAscii ->
+     serve fixed date script dflt input eof = mkO [] [] CClosed [] true) /\
+  (forall m url ver hs rest, read_head fixed input = HeadOk m url ver hs rest ->
+     framing fixed hs = FrExpectationFailed ->
+     serve fixed date script dflt input eof = mkO [] (error_bytes date 417 ver true) CClosed [] true).
+Proof.
+  intros. split; [apply serve_bad_line|split; [intros ver; apply serve_bad_header|split; [apply serve_non_ascii|]]].
+  intros m url ver hs rest. apply serve_expectation_failed.
+Qed.
+Print Assumptions c10_serve_first.
+
+Theorem c10_error_bytes_status : forall date st ver nb, exists more,
+  error_bytes date st ver nb =
+  s "HTTP/" ++ print_dec (fst ver) ++ s "." ++ print_dec (snd ver) ++ [SP] ++ print_dec st ++ [SP]
+  ++ Reason.reason_phrase st ++ CRLF ++ more.
+Proof. exact error_bytes_status_line. Qed.
+Print Assumptions c10_error_bytes_status.
+
+(* ---- the hypotheses are satisfiable ---- *)
+Example c10_example_lines :
+  read_line (s "GET /a" ++ CRLF ++ s "X: y" ++ CRLF) = Some (s "GET /a", s "X: y" ++ CRLF) /\
+  List.length (split_on SP (trim (s "GET /a"))) = 2%nat /\
+  split_on SP (trim (s "GET /a HTTP/1.2 x")) = [s "GET"; s "/a"; s "HTTP/1.2"; s "x"] /\
+  parse_version (s "HTTP/1.2") = None /\ parse_version (s "http/1.1") = None /\
+  all_ascii (s "GET /" ++ ["233"] ++ s " HTTP/1.1") = false /\
+  read_head fixed (s "GET /a" ++ CRLF ++ CRLF) = HeadBadLine /\
+  read_head fixed (s "GET /a HTTP/1.2" ++ CRLF ++ CRLF) = HeadBadLine /\
+  read_head fixed (s "GET /" ++ ["233"] ++ s " HTTP/1.1" ++ CRLF ++ CRLF) = HeadNonAscii /\
+  read_head fixed (s "GET / HTTP/1.1" ++ CRLF ++ s "A: b" ++ CRLF ++ s "X-" ++ ["233"] ++ s ": 1" ++ CRLF ++ CRLF) = HeadNonAscii /\
+  read_head fixed (s "GET / HTTP/1.1" ++ CRLF ++ s "A: b" ++ CRLF ++ s "nocolon" ++ CRLF ++ CRLF) = HeadBadHeader (1, 1)%N.
+Proof. vm_compute. repeat split; reflexivity. Qed.
+
+Example c10_example_expect :
+  let hs := [mkH (s "Host") (s "x"); mkH (s "expect") (s "200-ok"); mkH (s "Content-Length") (s "3")] in
+  header_value "Expect" hs = Some (s "200-ok") /\ eq_ci (s "200-ok") (s "100-continue") = false /\
+  framing fixed hs = FrExpectationFailed /\
+  framing fixed [mkH (s "Expect") (s "100-Continue")] = FrOk KEmpty None true.
+Proof. vm_compute. repeat split; reflexivity. Qed.
+
+Example c10_example_outcomes :
+  let a := mkA [] (FRespond 200 (s "ok") true) in
+  let first26 i := firstn 26 (o_wire (serve fixed (s "D") [] a i true)) in
+  first26 (s "GET /a" ++ CRLF ++ CRLF) = s "HTTP/1.1 400 Bad Request" ++ CRLF /\
+  firstn 33 (o_wire (serve fixed (s "D") [] a (s "GET / HTTP/1.0" ++ CRLF ++ s "Expect: x" ++ CRLF ++ CRLF) true))
+    = s "HTTP/1.0 417 Expectation Failed" ++ CRLF /\
+  serve fixed (s "D") [] a (s "GET /" ++ ["233"] ++ s " HTTP/1.1" ++ CRLF ++ CRLF) true = mkO [] [] CClosed [] true /\
+  firstn 41 (bytes_505 (s "D")) = s "HTTP/1.1 505 HTTP Version Not Supported" ++ CRLF.
+Proof. vm_compute. repeat split; reflexivity. Qed.
+
+(* ---- the refused head at any position: after k well-formed requests without a body that keep the
+   connection alive (quiet_run, Http/ServeGoodFacts.v), whatever the handler does with them ---- *)
+From TH Require Import Http.ServeGoodFacts.
+Theorem c10_serve_after_requests : forall date script dflt eof goods x,
+  quiet_run goods = true ->
+  (read_head fixed x = HeadBadLine ->
+     exists w ds ok', Forall2 delivered_as (map fst goods) ds /\
+       serve fixed date script dflt (render_run goods ++ x) eof
+       = mkO ds (w ++ error_bytes date 400 (1, 1)%N false) CClosed [] ok') /\
+  (forall ver, read_head fixed x = HeadBadHeader ver ->
+     exists w ds ok', Forall2 delivered_as (map fst goods) ds /\
+       serve fixed date script dflt (render_run goods ++ x) eof
+       = mkO ds (w ++ error_bytes date 400 ver false) CClosed [] ok') /\
+  (read_head fixed x = HeadNonAscii ->
+     exists w ds ok', Forall2 delivered_as (map fst goods) ds /\
+       serve fixed date script dflt (render_run goods ++ x) eof = mkO ds w CClosed [] ok') /\
+  (forall m u ver hs rest, read_head fixed x = HeadOk m u ver hs rest -> framing fixed hs = FrExpectationFailed ->
+     exists w ds ok', Forall2 delivered_as (map fst goods) ds /\
+       serve fixed date script dflt (render_run goods ++ x) eof
+       = mkO ds (w ++ error_bytes date 417 ver true) CClosed [] ok') /\
+  (forall m u ver hs rest bl ex, read_head fixed x = HeadOk m u ver hs rest ->
+     framing fixed hs = FrOk KEmpty bl ex -> ver_gt_11 ver = true ->
+     exists f w ds ok', (List.length rest <= f)%nat /\ Forall2 delivered_as (map fst goods) ds /\
+       serve fixed date script dflt (render_run goods ++ x) eof
+       = serve_loop fixed date f (skipn (List.length goods) script) dflt (mkS rest eof)
+                    (w ++ bytes_505 date) (rev ds) [] ok').
+Proof.
+  intros date script dflt eof goods x Q.
+  split; [now apply serve_run_then_bad_line|].
+  split; [intros ver R; apply serve_run_then_400; [exact Q|now left]|].
+  split; [now apply serve_run_then_non_ascii|].
+  split; [intros m u ver hs rest; now apply serve_run_then_417|].
+  intros m u ver hs rest bl ex. now apply serve_run_then_505.
+Qed.
+Print Assumptions c10_serve_after_requests.
+
+Example c10_example_after_requests :
+  let g t := (mkRq (s "GET") (s t) (1, 1)%N [(s "Host", s "h")], [([SP], [])]) in
+  quiet_run [g "/1"%string; g "/2"%string] = true /\
+  let o := serve fixed (s "D") [] (mkA [] (FRespond 200 (s "ok") true))
+             (render_run [g "/1"%string; g "/2"%string] ++ s "GET /x HTTP/2.0" ++ CRLF ++ CRLF ++ s "GET /3 HTTP/1.0" ++ CRLF ++ CRLF) false in
+  map d_url (o_reqs o) = [s "/1"; s "/2"; s "/3"] /\ o_end o = CClosed.
+Proof. vm_compute. repeat split; reflexivity. Qed.
+
+(* the connection remains usable after the 505: the requests that follow are delivered as sent *)
+Theorem c10_505_connection_usable : forall date script dflt eof input m u ver hs bl ex goods y,
+  read_head fixed input = HeadOk m u ver hs (render_run goods ++ y) ->
+  framing fixed hs = FrOk KEmpty bl ex -> ver = (2, 0)%N \/ ver = (3, 0)%N ->
+  quiet_run goods = true -> read_head fixed y = HeadEof ->
+  exists w ds ok', Forall2 delivered_as (map fst goods) ds /\
+    serve fixed date script dflt input eof
+    = mkO ds (bytes_505 date ++ w) (if eof then CClosed else COpen) [] ok'.
+Proof.
+  intros date script dflt eof input m u ver hs bl ex goods y R F V.
+  apply (serve_505_then_run date script dflt eof input m u ver hs bl ex goods y R F).
+  destruct V as [-> | ->]; reflexivity.
+Qed.
+Print Assumptions c10_505_connection_usable.
+
+Example c10_example_505_usable :
+  let g t := (mkRq (s "GET") (s t) (1, 1)%N [(s "Host", s "h")], [([SP], [])]) in
+  let goods := [g "/1"%string; g "/2"%string] in
+  read_head fixed (s "GET /x HTTP/3.0" ++ CRLF ++ s "Host: h" ++ CRLF ++ CRLF ++ render_run goods ++ s "GE")
+  = HeadOk (s "GET") (s "/x") (3, 0)%N [mkH (s "Host") (s "h")] (render_run goods ++ s "GE") /\
+  framing fixed [mkH (s "Host") (s "h")] = FrOk KEmpty None false /\
+  quiet_run goods = true /\ read_head fixed (s "GE") = HeadEof.
+Proof. vm_compute. repeat split; reflexivity. Qed.
